@@ -1,7 +1,7 @@
 (* C10: state variables never alias; reported layout = used layout.
    Property theorems (proved in AllocProofs.v / Paths.v / OverrideProofs.v) + non-vacuity examples. *)
 From Coq Require Import ZArith Bool List String Lia.
-From Verif Require Import Base.PyInt C10.GenAlloc C10.Layout C10.Alloc C10.Paths C10.AllocProofs C10.OverrideProofs.
+From Verif Require Import Base.PyInt Base.Word256 C03.LIR C10.GenAlloc C10.Layout C10.Alloc C10.Paths C10.AllocProofs C10.OverrideProofs C10.AddrTemplates.
 Import ListNotations.
 Open Scope Z_scope.
 
@@ -111,6 +111,45 @@ Proof.
 Qed.
 Print Assumptions mapping_slots_distinct.
 
+(* generate_layout_export lists every state variable exactly once, in order, with the position and size it
+   was allocated (second traversal reading the recorded positions) *)
+Theorem export_roundtrip : forall lockloc ds slot es,
+  allocate lockloc ds = Ok (slot, es) ->
+  NoDup (map (fun v => fst (fst v)) (flatten [] ds)) ->
+  export_decls (positions_of es) [] ds = map (fun e => (e_path e, e_loc e, e_size e, Some (e_off e))) es.
+Proof. exact export_roundtrip_l. Qed.
+Print Assumptions export_roundtrip.
+
+(* "reported layout = used layout" for the emitted address code: the IR that get_element_ptr emits for a
+   path (template addr_path, matched syntactically against the real generator on every run) evaluates to
+   base + ws * (resolve offset) mod 2^256 when every index is in bounds (levels_ok) *)
+Theorem addr_code_matches_layout : forall path ws signs k t p e pv q o t',
+  (ws = 1 \/ ws = 32) -> 0 <= pv < W ->
+  addr_path ws signs k t path p = Some q -> leval e p = Val pv ->
+  levels_ok e signs k t path -> resolve t path = Some (o, t') ->
+  leval e q = Val (wrap (pv + ws * o)).
+Proof. exact addr_path_correct. Qed.
+Print Assumptions addr_code_matches_layout.
+
+(* nested HashMaps: entries behind different (variable, key chain) never overlap, and never reach the static area *)
+Theorem chained_maps_distinct :
+  forall (H : Z -> Z -> Z) (BOUND : Z), 0 < BOUND ->
+  (forall s k s' k', (s, k) <> (s', k') -> H s k + BOUND <= H s' k' \/ H s' k' + BOUND <= H s k) ->
+  (forall s k, BOUND <= H s k) ->
+  (forall s ks v p s' ks' v' p' a n a' n',
+     0 <= s < BOUND -> 0 <= s' < BOUND -> ks <> [] -> ks' <> [] -> wf v -> wf v' ->
+     size_words v <= BOUND -> size_words v' <= BOUND -> (s, ks) <> (s', ks') ->
+     chain_entry H s ks v p = Some (a, n) -> chain_entry H s' ks' v' p' = Some (a', n') ->
+     a + n <= a' \/ a' + n' <= a) /\
+  (forall s ks v p a n base sz, ks <> [] -> wf v -> 0 <= base -> base + sz <= BOUND ->
+     chain_entry H s ks v p = Some (a, n) -> base + sz <= a).
+Proof.
+  intros H B Bp Hs Ha. split.
+  - intros s ks v p s' ks' v' p' a n a' n'. apply (chained_maps_distinct_l H B Bp Hs Ha).
+  - intros s ks v p a n base sz. apply (chained_maps_avoid_static_l H B Hs Ha).
+Qed.
+Print Assumptions chained_maps_distinct.
+
 (* ---- non-vacuity ---- *)
 Open Scope string_scope.
 Definition ex_decls : list decl :=
@@ -160,6 +199,15 @@ Proof.
   - intros A. repeat match goal with H : _ /\ _ |- _ => destruct H end.
     repeat match goal with H : Forall _ (_ :: _) |- _ => inversion H; clear H; subst end. cbn [fst snd] in *. lia.
 Qed.
+
+Example addr_nonvacuous :
+  let t := TSArr (TDArr (TStruct [TWord; TSArr TWord 3]) 4) 2 in
+  let path := [SIdx 1; SIdx 2; SField 1%nat; SIdx 0] in
+  exists q, addr_path 1 [false; true; false; false] 0%nat t path (LVar "base") = Some q /\
+            resolve t path = Some (1 * 17 + 1 + 2 * 4 + 1 + 0, TWord) /\
+            leval [("base", 100); ("ix0", 1); ("ix1", 2); ("len1", 3); ("ix3", 0)] q = Val 127 /\
+            leval [("base", 100); ("ix0", 1); ("ix1", 3); ("len1", 3); ("ix3", 0)] q = Revert.
+Proof. cbv zeta. eexists. split; [reflexivity|]. repeat split; vm_compute; reflexivity. Qed.
 
 Example override_nonvacuous :
   let rs := reqs_module true [DVar "a" LStorage 1; DInit "l" true [DVar "b" LStorage 3]] in
